@@ -233,9 +233,9 @@ the *-scale-*, *-tiny-*, *-huge-* checks apply the same rules to the same arrang
             "f32/f64 containment and collision are decided exactly only on the integer grid |coord| <= 1000: differences, squares and their sum (<= 1.2e7 < 2^24) are exact, IEEE sqrt is correctly rounded and monotone, fl(sqrt(R^2)) = R and fl(sqrt(R^2+1)) > R for every integer R < 4096 (1/(2R+1) > ulp(R)/2), so `sqrt(d2) <= R` equals `d2 <= R^2`",
             "scaled integer grid (disk/sphere-scale-*): the same exactness argument holds for the grid times 2^k as long as every square and the sum d2 * 2^2k is a normal, finite number (f64: -500 <= k, d2 * 4^k < 2^1023; f32: -60 <= k, d2 * 4^k < 2^127; f64 additionally integer d2 < 2^48 and R < 2^25, where R (2R+1) < 2^53 keeps sqrt(R^2+1) more than half an ulp above R). Where d^2 may overflow, the documented formula `distance <= radius` sees an infinite distance: 'outside -> false' is still asserted, 'inside -> true' is NOT (any implementation that squares the coordinates loses it); squares that underflow (k below the stated bounds) are not generated",
             "negative radii (*-neg-*): the statement has no restriction on the radius and vek documents none, so it is read literally: no distance is <= a negative radius or a negative sum of radii, hence contains_point / collides_with_* are false (one negative radius with a non-negative sum: d <= r1 + r2); radius -0.0 is 0, radius +inf contains / collides with every finite shape, -inf with none; NaN radii are not generated. The collision vector is only called with radii >= 0 (tangency at a negative distance has no meaning); bounds and measures of negative radii are checked against the literal formulas only",
-            "ray-scale-*: integer configurations, positions * 2^kt, direction * 2^kd (f64 |kt| <= 200, |kd| <= 100; f32 |kt| <= 30, |kd| <= 20; Rat kt in -28..12, |kd| <= 14; hit parameter up to 2^30 / 2^8 / 2^10 direction lengths): all of vek's intermediate products stay normal finite numbers, the oracle is an exact i128 Cramer solve. vek itself treats |a| < T::epsilon() (a = edge1 . (direction x edge2), absolute test; 2^-52 for f64 and Rat, 2^-23 for f32) as parallel: exactly the cases with 0 < |a| < epsilon are not asserted (for integer / axis / Pythagorean directions vek's a is computed without rounding and equals det * 2^(2kt+kd); for rounded unit directions a band of the forward error bound 32 eps * sum|terms| around epsilon is excluded too); |a| = epsilon and above is asserted. Floats: hit/miss is asserted when every barycentric coordinate is farther from 0 than its forward error bound 2 * 16 eps * (sum|numerator terms| + |u| sum|determinant terms|) / |det| + 4 eps |u|, the parameter within the same bound; crossings exactly on an edge are decided in Rat only (there also 2^-20 .. 2^-60 beside an edge)",
+            "ray-scale-*: integer configurations, positions * 2^kt, direction * 2^kd (f64 |kt| <= 200, |kd| <= 100; f32 |kt| <= 30, |kd| <= 20; Rat kt in -28..12, |kd| <= 14; hit parameter up to 2^30 / 2^8 / 2^10 direction lengths): all of vek's intermediate products stay normal finite numbers, the oracle is an exact i128 Cramer solve. 'parallel' means a determinant that vanishes to within rounding RELATIVE to its factors: cases with |a| <= 2 eps * max|edge1_i| * max|(direction x edge2)_i| (a = edge1 . (direction x edge2) = det * 2^(2kt+kd); a scale-free ratio of the integer configuration; for rounded unit directions plus the forward error bound 32 eps * sum|terms| of the computed a) are not asserted; every other non-zero determinant is asserted as a proper crossing however small |a| is in absolute terms (an absolute threshold T::epsilon() made triangles smaller than ~sqrt(eps) invisible: finding F15, repaired). Floats: hit/miss is asserted when every barycentric coordinate is farther from 0 than its forward error bound 2 * 16 eps * (sum|numerator terms| + |u| sum|determinant terms|) / |det| + 4 eps |u|, the parameter within the same bound; crossings exactly on an edge are decided in Rat only (there also 2^-20 .. 2^-60 beside an edge)",
             "tolerances of every scaled check are relative to the magnitudes at that scale (no floor of 1): seg*-tiny/huge 32..64 eps * max|coordinate| (squares: 4 max^2), shape-scale 4..6 eps * |result|, collision vector 8 eps * |off_i|/d * (r1+r2+d) * 2^k",
-            "preconditions of the base checks: radii >= 0; distinct centres for the collision vector; segments are either exactly degenerate (start == end, for which the code returns start) or ordinary: the seg*-tiny checks scale the arrangements down to 2^-40 so that 0 < |end-start|^2 <= T::epsilon() is covered (the base seg* checks keep squared length >= 1/64); ray-triangle determinants of ray-rat / ray-f64 are exactly 0 or >= 1e-3 in magnitude (vek compares the determinant with T::epsilon(); Rat's epsilon is 2^-52) -- the ray-scale-* checks cover every determinant down to epsilon; seg*-huge scale up to 2^400 (f32 2^44, Rat 2^16) where |end-start|^2 and the dot products stay finite",
+            "preconditions of the base checks: radii >= 0; distinct centres for the collision vector; segments are either exactly degenerate (start == end, for which the code returns start) or ordinary: the seg*-tiny checks scale the arrangements down to 2^-40 so that 0 < |end-start|^2 <= T::epsilon() is covered (the base seg* checks keep squared length >= 1/64); ray-triangle determinants of ray-rat / ray-f64 are exactly 0 or >= 1e-3 in magnitude (kept clear of any parallel-test threshold; Rat's epsilon is 2^-52) -- the ray-scale-* checks cover small determinants at every scale; seg*-huge scale up to 2^400 (f32 2^44, Rat 2^16) where |end-start|^2 and the dot products stay finite",
             "the ray direction need not be normalised for the asserted statement (Some(t) with origin + t*direction the crossing point); a share of the cases uses exactly normalised (Pythagorean) directions",
             "float tolerances are k * eps(S) * scale with the k and scale stated at each comparison; max observed error/tolerance is recorded in the evidence",
         ],
